@@ -881,10 +881,20 @@ def sg10(P, C):
         if f.k(i) != "IfStmt" or f.nodes[i].get("else", -1) < 0:
             continue
         c = f.nodes[f.strip(f.nodes[i]["cond"])]
-        if c["k"] == "BinaryOperator" and c.get("op") == "<" and f.nodes[f.strip(c["ch"][1])].get("cv") == 0 and f.k(f.strip(c["ch"][0])) == "DeclRefExpr":
-            stores = [f.render(x).replace(" ", "") for x in f.walk(i) if ts.assign_parts(f, x)]
-            if any(re.match(r"^\(\w+=G\)$", t) for t in stores) and any(re.match(r"^\(\w+=Gprime\)$", t) for t in stores):
-                V = f.nodes[f.strip(c["ch"][0])]["decl"]
+        if c["k"] != "BinaryOperator":
+            continue
+        # `V < 0` selects the live set in the then-branch; `V >= 0` (written `0 <= V` by the normal form) selects it in the else-branch
+        l_, r_ = f.strip(c["ch"][0]), f.strip(c["ch"][1])
+        var = None
+        if c.get("op") == "<" and f.nodes[r_].get("cv") == 0 and f.k(l_) == "DeclRefExpr":
+            var, live, snap = l_, f.nodes[i]["then"], f.nodes[i]["else"]
+        elif c.get("op") == "<=" and f.nodes[l_].get("cv") == 0 and f.k(r_) == "DeclRefExpr":
+            var, live, snap = r_, f.nodes[i]["else"], f.nodes[i]["then"]
+        if var is not None:
+            st_live = [f.render(x).replace(" ", "") for x in f.walk(live) if ts.assign_parts(f, x)]
+            st_snap = [f.render(x).replace(" ", "") for x in f.walk(snap) if ts.assign_parts(f, x)]
+            if any(re.match(r"^\(\w+=G\)$", t) for t in st_live) and any(re.match(r"^\(\w+=Gprime\)$", t) for t in st_snap):
+                V = f.nodes[var]["decl"]
     if V is None:
         raise core.AnalysisBroken("SG-10: the test that selects between the live constrained set and its snapshot was not found")
     vid = V["id"]
